@@ -368,7 +368,20 @@ impl Debug for FixedSchema {
 }
 
 impl FixedSchema {
-    fn serialize_to_map<S>(&self, mut map: S::SerializeMap) -> Result<S::SerializeMap, S::Error>
+    fn serialize_to_map<S>(&self, map: S::SerializeMap) -> Result<S::SerializeMap, S::Error>
+    where
+        S: Serializer,
+    {
+        self.serialize_to_map_excluding::<S>(map, &[])
+    }
+
+    /// Like [`Self::serialize_to_map`], but skips the custom attributes named in `excluded`
+    /// (used when the caller writes those keys itself).
+    fn serialize_to_map_excluding<S>(
+        &self,
+        mut map: S::SerializeMap,
+        excluded: &[&str],
+    ) -> Result<S::SerializeMap, S::Error>
     where
         S: Serializer,
     {
@@ -387,6 +400,9 @@ impl FixedSchema {
         }
 
         for attr in &self.attributes {
+            if excluded.contains(&attr.0.as_str()) {
+                continue;
+            }
             map.serialize_entry(attr.0, attr.1)?;
         }
 
@@ -962,7 +978,10 @@ impl Serialize for Schema {
                 let mut map = serializer.serialize_map(None)?;
                 match inner {
                     InnerDecimalSchema::Fixed(fixed_schema) => {
-                        map = fixed_schema.serialize_to_map::<S>(map)?;
+                        // The parser also keeps `precision` and `scale` as custom attributes of
+                        // the fixed; they are written below, once.
+                        map = fixed_schema
+                            .serialize_to_map_excluding::<S>(map, &["precision", "scale"])?;
                     }
                     InnerDecimalSchema::Bytes => {
                         map.serialize_entry("type", "bytes")?;
